@@ -954,6 +954,10 @@ func c02Gen(r *Rng, tier string) []string {
 			cfg = fmt.Sprintf("%s,%s,%s,%d,%s,%s", kd, kt, en, 2+r.N(2), r.Pick([]string{"j", "b40"}), r.Pick([]string{"dk", "dd"}))
 			mut = r.Pick([]string{"forge:apu", "forge:apu+skid", "forge:skid", "corecip", "corecip", "forge:mallory", "forge:mallory",
 				"forge:apumallory", "forge:apumallory"})
+			if mut == "forge:apumallory" {
+				// (sealed by hand the way the framework seals multi-recipient ECDH-1PU envelopes for X25519 keys)
+				cfg = fmt.Sprintf("aj,x25519,xc,%d,j,%s", 2+r.N(2), r.Pick([]string{"dk", "dd"}))
+			}
 		case c < 9:
 			mut = fmt.Sprintf("flip:%s:999", r.Pick(fields)) // last character: base64 trailing bits
 		case c < 10:
